@@ -18,7 +18,7 @@ var Leaves = []reflect.Type{
 	T[int8](), T[int16](), T[int32](), T[int64](), T[uint](), T[uint8](), T[uint16](), T[uint32](), T[uint64](), T[uintptr](), T[float32](),
 	T[NamedBytes](), T[NamedString](), T[NamedInt](), T[json.Number](), T[json.RawMessage](), T[time.Time](),
 	T[VMStruct](), T[PMStruct](), T[VTStruct](), T[PTStruct](), T[VMString](), T[PTString](), T[VTInt](), T[PMInt](), T[VMSlice](), T[VTSlice](), T[VMMap](), T[ErrM](), T[ErrT](), T[Both](),
-	T[Iface](), T[Base](), T[struct{}](), T[VTPMStruct](), T[VTString](), T[RecPM](), T[NamedAny](), T[RecArr](), T[VUByte](), T[VMInt](), T[LazyFn](), T[ChanBox](),
+	T[Iface](), T[Base](), T[struct{}](), T[VTPMStruct](), T[VTString](), T[RecPM](), T[NamedAny](), T[RecArr](), T[VUByte](), T[VMInt](), T[LazyFn](), T[ChanBox](), T[NamedIntPtr](),
 }
 
 // Statics are the hand-written struct types (embedding, tags, recursion).
@@ -306,9 +306,9 @@ func Domain(t reflect.Type, depth int) []reflect.Value {
 		}
 	case reflect.Ptr:
 		ed := Domain(t.Elem(), depth+1)
-		out = append(out, ptrTo(ed[0]), zero)
+		out = append(out, ptrTo(ed[0]).Convert(t), zero)
 		for j := 1; j < len(ed) && j < 6; j++ {
-			out = append(out, ptrTo(ed[j]))
+			out = append(out, ptrTo(ed[j]).Convert(t))
 		}
 	case reflect.Struct:
 		n := t.NumField()
@@ -478,12 +478,12 @@ func clone(v reflect.Value, seen map[unsafe.Pointer]reflect.Value) reflect.Value
 			return out
 		}
 		if c, ok := seen[v.UnsafePointer()]; ok {
-			return c
+			return c.Convert(v.Type())
 		}
 		p := reflect.New(v.Type().Elem())
 		seen[v.UnsafePointer()] = p
 		p.Elem().Set(clone(v.Elem(), seen))
-		return p
+		return p.Convert(v.Type())
 	case reflect.Interface:
 		if v.IsNil() {
 			return out
